@@ -353,7 +353,17 @@ def mul_concat(chk, repo, clause):
                     {nf.attr(S('self'), 'tilt').single_atom(), nf.attr(S('other'), 'tilt').single_atom()} <= t.atoms()
                 if not fresh:
                     ok, det = False, f'product field gets tilt = {fmt(t)}'
-    chk.ob(clause, 'E-ownership', fm.key, 'product carries a new list with both operands\' tilts', ok and n > 0,
+                else:
+                    both = nf.attr(S('self'), 'tilt') + nf.attr(S('other'), 'tilt')
+                    tv = nf.strip_apps(t, ('list', 'copy', 'tuple'))
+                    if tv != both:
+                        choice = [a for a in nf.value_atoms(t) if is_app(a, ('or', 'and', 'ifexp', 'where'))]
+                        if choice:
+                            # `self.tilt or other.tilt`: one operand's tilts are dropped whenever the other has any
+                            ok, det = False, f'product field gets tilt = {fmt(t)[:80]}: a choice between the two lists, not both'
+                        elif ok:
+                            ok, det = None, f'undecided: tilt = {fmt(t)[:80]} is built from both lists in a way that is not followed'
+    chk.ob(clause, 'E-ownership', fm.key, 'product carries a new list with both operands\' tilts', (ok and n > 0) if ok is not None else None,
            det or 'tilt = self.tilt + other.tilt (new list)', fm.loc())
 
 
@@ -626,6 +636,25 @@ def no_tolerance_shortcut(chk, repo, pid):
         chk.ob(clause, 'T-tolerance', f.key, 'no rounding to a fixed number of decimals', False,
                f'`{seg(f, node)[:80]}` snaps values to an absolute grid: what survives depends on the unit and scale of the data',
                f.loc(node))
+    # single / half precision named in the code: the properties are stated to rounding in double precision ("agrees with the
+    # defining sum", "to rounding"), and a kernel, buffer or accumulator narrowed to 32 bits is 1e-7 away from that
+    NARROW = {'float32', 'complex64', 'float16', 'single', 'csingle', 'half'}
+    NARROW_CODES = {'f4', 'c8', 'f2', '<f4', '<c8', 'float32', 'complex64', 'float16'}
+    # frozen exceptions (one reason each): the cosmic-ray tracer works on float32 ray coordinates by design upstream
+    NARROW_OK = {'detector._cubeplane_ray_intersection', 'detector._process_cube_intersections'}
+    badp = []
+    for f in repo.all_functions():
+        if f.module.name not in mods or f.key in NARROW_OK:
+            continue
+        for node in ast.walk(f.node):
+            if (isinstance(node, ast.Attribute) and node.attr in NARROW) or (isinstance(node, ast.Name) and node.id in NARROW) or \
+                    (isinstance(node, ast.Constant) and isinstance(node.value, str) and node.value in NARROW_CODES):
+                badp.append((f, node))
+                break
+    for f, node in badp:
+        chk.ob(clause, 'T-precision', f.key, 'no computation narrowed to single precision', False,
+               f'`{seg(f, node)[:60]}`: values that pass through a 32-bit type agree with the double-precision result to 1e-7 only',
+               f.loc(node))
     # np.arange with a fractional step: the number of samples depends on rounding (stop - start)/step, so arrays built
     # from it are one sample longer for some sizes - shapes stop being a function of the arguments' shapes
     badr = []
@@ -740,6 +769,56 @@ def _literal(src):
         return ('src', src)
 
 
+# crossed bare-name arguments that are harmless, one reason each
+CROSSED_OK = {
+    ('propagate._fft_shape', 'propagate._dft_alpha'): 'z and wavelength enter _dft_alpha as a product only (symmetry proved by C09-e)',
+}
+
+
+def crossed_arguments_rule(chk, repo, clause, mods):
+    """Inside the package a call that passes the caller's variable `x` for a parameter called something else, while the
+    callee also has a parameter `x`, has crossed two arguments (`cls(wavelength, pixelscale, focal_length, diameter)` against
+    `__init__(self, wavelength, pixelscale, diameter, focal_length)`).  Resolved on the syntax tree: module functions,
+    classes (their constructor) and `cls(...)` inside a class method."""
+    from .. import bind
+    from ..model import ClassInfo, FuncInfo
+    bad, n = [], 0
+    for f in repo.all_functions():
+        if f.module.name not in mods:
+            continue
+        for node in ast.walk(f.node):
+            if not isinstance(node, ast.Call):
+                continue
+            callee, ctor = None, False
+            d = dotted(node.func)
+            if isinstance(node.func, ast.Name) and node.func.id == 'cls' and f.cls is not None and f.is_classmethod:
+                callee, ctor = f.cls.find_method('__init__'), True
+            elif d is not None and d.split('.')[0] not in ('self', 'cls'):
+                tgt = repo.resolve_name(f.module, d)
+                if isinstance(tgt, FuncInfo):
+                    callee = tgt
+                elif isinstance(tgt, ClassInfo):
+                    callee, ctor = tgt.find_method('__init__'), True
+            if callee is None or any(isinstance(a, ast.Starred) for a in node.args):
+                continue
+            try:
+                site = bind._site(repo, f, node, callee, ctor)
+            except Exception:
+                continue
+            if ctor and site.binding and callee.params() and callee.params()[0][0] in site.binding and \
+                    not isinstance(node.func, ast.Attribute):
+                pass
+            n += 1
+            # crossed: `x` is passed for parameter p while the parameter called x receives another of the callee's names
+            pn = set(callee.param_names())
+            mm = [(p_, a) for p_, a in bind.b3_mismatches(site)
+                  if isinstance(site.binding.get(a), ast.Name) and site.binding[a].id != a and site.binding[a].id in pn]
+            if mm and (f.key, callee.key) not in CROSSED_OK:
+                bad.append(f'{f.key} -> {callee.key} at {f.loc(node)}: ' + ', '.join(f'`{a}` passed for `{p_}`' for p_, a in mm))
+    chk.ob(clause, 'B3-binding', 'lentil.' + '/'.join(mods), 'internal calls pass like-named variables for like-named parameters',
+           (not bad) if n else None, '; '.join(sorted(set(bad))[:3]) or f'{n} resolved call site(s)', '')
+
+
 def public_signature_rule(chk, repo, pid, mods):
     """The calling convention of the public functions is part of what "for all inputs" quantifies over: a parameter
     inserted in front of existing ones, two parameters exchanged, or a default changed makes existing calls mean
@@ -785,6 +864,7 @@ def public_signature_rule(chk, repo, pid, mods):
         for nm, d in new_pos[len(old_pos):]:
             if d is None and nm not in [x for x, _ in old_pos]:
                 bad.append(f'{key}: new parameter `{nm}` has no default')
+    crossed_arguments_rule(chk, repo, clause, mods)
     chk.ob(clause, 'B-signature', 'lentil.' + '/'.join(mods), 'pinned public calling conventions', (not bad) if n else None,
            '; '.join(bad[:3]) + (': calls written against the documented convention bind other parameters / get other values'
                                  if bad else f'{n} public function(s) keep their calling convention'), '')
